@@ -16,7 +16,7 @@ from vf.xmodel import Schema, Rop, build_api, build_loader
 SHARDS = {'quick': 16, 'thorough': 32}
 TIMEOUT = {'quick': 900, 'thorough': 3600}
 MUST_HIT = ['ClassName.navigation-spellings', 'Cell.where_eq-two-spellings-in-one-filter', 'Cell.where_eq-identifier-twin', 'Cell.two-classes', 'Cell.read-all-spellings', 'Cell.serialize', 'Cell.where_eq',
-            'Referential.write-rejected', 'Referential.ctor-keyword', 'Referential.ctor-two-spellings', 'Ctor.two-spellings-in-one-call', 'Referential.loaded-instance', 'ClassName.spellings',
+            'Referential.write-rejected', 'Cell.class-without-associations', 'Referential.ctor-keyword', 'Referential.ctor-two-spellings', 'Ctor.two-spellings-in-one-call', 'Referential.loaded-instance', 'ClassName.spellings',
             'Cell.referred-identifier-written', 'ClassName.whole-model-after-spellings', 'Cell.where_eq-after-delete']
 MUST_REACH = ['xtuml/meta.py:Class.__getattr__', 'xtuml/meta.py:Class.__setattr__',
               'xtuml/meta.py:Class.__delattr__', 'xtuml/meta.py:MetaModel.find_metaclass',
@@ -63,9 +63,16 @@ class Mismatch(Exception):
 DELETED = '<deleted>'
 
 
-def schema(attr, ty):
+def schema(attr, ty, with_ref=True):
     # T: the class under test; the attribute under test, a second plain
     # attribute that must never be disturbed, an identifier and a referential
+    if not with_ref:
+        # the class under test takes part in no association: every attribute is a plain stored value
+        return Schema(
+            [('Othr', [('Id', 'UNIQUE_ID')]),
+             ('Thng', [('Id', 'UNIQUE_ID'), (attr + 'x', 'STRING'), (attr, ty), ('Keep', 'STRING')])],
+            [],
+            [('Thng', 'I1', ['Id', attr]), ('Othr', 'I1', ['Id'])])
     return Schema(
         [('Othr', [('Id', 'UNIQUE_ID')]),
          # an attribute whose name merely starts with the name under test is declared in front of it
@@ -148,12 +155,14 @@ def observe(ctx, m, inst, declared, ty, cell, sps, keep):
         xtuml.delete(twin)
 
 
-def run_attr_history(ctx, route, declared, ty, hist, sps):
+def run_attr_history(ctx, route, declared, ty, hist, sps, with_ref=True):
     '''
     hist: list of ('ctor', spelling) | ('write', spelling) | ('delete', spelling)
     values are fresh per write.
     '''
-    sch = schema(declared, ty)
+    sch = schema(declared, ty, with_ref)
+    if not with_ref:
+        ctx.hit('Cell.class-without-associations')
     m = build_api(sch) if route == 'api' else build_loader(sch)
     counter = [0]
 
@@ -647,10 +656,10 @@ def run(ctx):
         route = 'loader' if n % 61 == 0 else 'api'
         count += 1
         try:
-            run_attr_history(ctx, route, declared, ty, hist, spellings(declared))
+            run_attr_history(ctx, route, declared, ty, hist, spellings(declared), with_ref=(n % 3 != 1))
             ctx.case_enum(len(set(sp for _, sp in hist)) > 1)
         except Mismatch as e:
-            ctx.violation(e.key, e.what, case=dict(attr=declared, type=ty, route=route,
+            ctx.violation(e.key, e.what, case=dict(attr=declared, type=ty, route=route, with_ref=(n % 3 != 1),
                                                    history=[list(h) for h in hist]))
     ctx.set_exhaustive('attribute write/delete/ctor histories x all spellings',
                        'names of length 2,3 (all histories <= 3 ops) and 4 (all write triples, '
